@@ -46,7 +46,21 @@ RULE = ("type-directed constructions through the public builders only: P(...), P
         "CounterfactualVariable.to_y0 with one and with several interventions; the level-2 `P[..](..)` / `PP[..][..](..)` print vs "
         "mixed worlds (tags `shape`, `site …` computed on the built object); 1.3% constructions OUTSIDE the quantifier that write "
         "a name twice (exercise `namesOnce` false; the property's oracle is not applied to them); "
-        "names from the parser's table incl. digits, underscores, Pi, π. Corpus: README/paper estimands "
+        "every public operator is also used to BUILD (tags op_*, counted on the construction tree): `@` applied to a finished "
+        "P(..) / PP[..](..) and to a Distribution inside the call (`P(Y | Z) @ (X, +W)`, `P((Y & Z) @ X)`, also among other "
+        "arguments and after a P[..] subscript), `|` with a `&`-joint on the right (`A | B & C`), chained `|`, `&` with a tuple "
+        "on the right and `&` applied to a conditional, unary operators on a finished counterfactual variable (`-(Y @ X)`, then "
+        "`@` again) and on an already marked variable (`~+Y`, `- -Y`); the forms the builders reject (`Sum @ X`, `A & (B & C)`, "
+        "`-(A | B)`, …) are in the malformed stream; "
+        "names: 70% of the pools from 8 common letters (+ one of 12 other spellings), 30% drawn uniformly from the WHOLE parser "
+        "table (546 names: 24 letters, Pi, π; bare, with a digit, with _digit; 45% of these pools hold several spellings of one stem, "
+        "X / X1 / X_1; Pi / π forms as ordinary variables and any Pi / π form as a population), plus a deterministic NAME SWEEP: for "
+        "every name of the table `P(<name>)` and the name in one (quick) / each (thorough) of seven other roles (parent, "
+        "subscript of a variable, Sum range, Q codomain, P[+..] subscript, population, marked child) next to its neighbour in the "
+        "table; a pseudo case `census` reports how many table names the run drew and the rarest name's count; "
+        "sizes: 6% of the distributions have 4-6 children, 6% 3-4 parents, 6% of the Sums 4-5 ranges, 8% of the P[..] 4-5 "
+        "subscripts, 5% of the counterfactual variables 4-5 interventions, Q factors up to 4 + 5 variables (tags size_*). "
+        "Corpus: README/paper estimands "
         "and the F4/F5 witnesses. Token-string stream: printed texts with 0-3 token mutations, Python's parser vs PyParse. "
         "A case is non-trivial when the built object has >= 2 leaves and contains a product, a sum or a fraction.")
 ASSUMPTIONS = [
@@ -89,6 +103,22 @@ LEANCHECK_MODULES = ["Y0.Model.Print", "Y0.Model.PyParse", "Y0.Model.PyEval", "Y
 COMMON = ["A", "B", "C", "D", "W", "X", "Y", "Z"]
 EXOTIC = ["X1", "Z_2", "M0", "A_0", "Pi", "π", "E", "T", "S", "R9", "U3", "Y_7"]
 POPS = ["π1", "π2", "Pi1", "π"]
+# the WHOLE name table of the parser (parser/internal.py: letters without P/Q, Pi, π; bare, with a digit, with _digit)
+TABLE = [n for n in PC.NAMES if n != PC.TARGET_NAME]
+P_TABLE_POOL = 0.30          # share of the constructions whose name pool is drawn uniformly from TABLE
+
+
+def stem_of(name: str) -> str:
+    """'X_1' -> 'X', 'Pi3' -> 'Pi', 'π' -> 'π'"""
+    return name.rstrip("0123456789").rstrip("_")
+
+
+def spellings(stem: str):
+    return [stem] + [f"{stem}{d}" for d in range(10)] + [f"{stem}_{d}" for d in range(10)]
+
+
+PI_FORMS = spellings("Pi") + spellings("π")
+_OLD_LISTS = set(COMMON) | set(EXOTIC) | set(POPS)
 
 CORPUS_DIR = C.VERIF / "corpus" / "C12"
 
@@ -103,16 +133,37 @@ class Gen:
     def __init__(self, rng: random.Random):
         self.rng = rng
         k = rng.randint(4, 7)
-        pool = rng.sample(COMMON, min(k, len(COMMON)))
-        if rng.random() < 0.35:
-            pool[-1] = rng.choice(EXOTIC)
-        if rng.random() < 0.15:
-            pool[0] = rng.choice(EXOTIC)
+        if rng.random() < 0.08:
+            k = rng.randint(8, 11)                      # room for distributions with up to 6 children / 4 parents
+        self.table = rng.random() < P_TABLE_POOL
+        if self.table:
+            # names from the whole parser table, uniformly; often several spellings of one stem together (X, X1, X_1)
+            pool = rng.sample(TABLE, k)
+            if rng.random() < 0.45:
+                st = stem_of(rng.choice(pool))
+                sp = spellings(st)
+                d = rng.randrange(10)
+                more = [st, f"{st}{d}", f"{st}_{d}"] if rng.random() < 0.5 else rng.sample(sp, 3)
+                for j, nm in enumerate(more[:rng.choice([1, 2, 2, 3])]):
+                    pool[(j * 2 + 1) % len(pool)] = nm
+        else:
+            pool = rng.sample(COMMON, min(k, len(COMMON)))
+            if len(pool) < k:
+                pool += rng.sample([n for n in TABLE if n not in COMMON], k - len(pool))
+                rng.shuffle(pool)
+            if rng.random() < 0.35:
+                pool[-1] = rng.choice(EXOTIC)
+            if rng.random() < 0.15:
+                pool[0] = rng.choice(EXOTIC)
         self.pool = list(dict.fromkeys(pool))
 
     def popn(self):
         """a population: a π name, or (30%) the library's own TARGET_DOMAIN, the tag of every transport estimand"""
-        return ["k", "TARGET_DOMAIN"] if self.rng.random() < 0.3 else _n(self.rng.choice(POPS))
+        if self.rng.random() < 0.3:
+            return ["k", "TARGET_DOMAIN"]
+        if self.table:
+            return _n(self.rng.choice(PI_FORMS) if self.rng.random() < 0.85 else self.rng.choice(TABLE))
+        return _n(self.rng.choice(POPS))
 
     def mark(self, a, p=0.22):
         r = self.rng.random()
@@ -124,36 +175,130 @@ class Gen:
             return ["un", "inv", a]
         return a
 
+    def unary(self, a):
+        return ["un", self.rng.choice(["pos", "neg", "neg", "inv"]), a]
+
     def iv(self, name, star):
+        """an intervention with value `star` (True: the other value), written in any of the equivalent ways"""
         a = _n(name)
-        if star:
-            return ["un", "pos", a] if self.rng.random() < 0.9 else ["un", "inv", a]
         r = self.rng.random()
+        if star:
+            if r < 0.02:                                   # unary on an already marked variable
+                return ["un", "pos", self.unary(a)] if r < 0.01 else ["un", "inv", ["un", "neg", a]]
+            return ["un", "pos", a] if r < 0.9 else ["un", "inv", a]
+        if r < 0.02:
+            return ["un", "neg", self.unary(a)] if r < 0.01 else ["un", "inv", ["un", "pos", a]]
         return a if r < 0.8 else ["un", "neg", a]
+
+    def ivs_arg(self, ivs):
+        return ivs[0] if len(ivs) == 1 else ["tup"] + ivs
 
     def var(self, name, others, stars, p_cf=0.2):
         rng = self.rng
         a = self.mark(_n(name))
+        if rng.random() < 0.03:
+            # a unary operator on an already marked variable: ~+Y, - -Y, +-Y (Variable.invert on star True / False)
+            a = self.unary(a if a[0] == "un" else self.mark(a, p=1.0))
         if others and rng.random() < p_cf:
-            k = min(len(others), rng.choice([1, 1, 1, 2, 2, 3]))
+            kmax = rng.choice([1, 1, 1, 2, 2, 3]) if rng.random() > 0.05 else rng.choice([4, 5])
+            k = min(len(others), kmax)
             ivn = rng.sample(others, k)
             ivs = [self.iv(n, stars[n] if rng.random() > 0.02 else not stars[n]) for n in ivn]   # rarely: a clash -> ValueError
             style = rng.random()
-            if k == 1:
+            late = []
+            if k >= 2 and rng.random() < 0.1:
+                late, ivs = ivs[-1:], ivs[:-1]             # … one more `@` AFTER the unary operator below
+            if len(ivs) == 1:
                 a = ["bin", "matmul", a, ivs[0]]
             elif style < 0.7:
                 a = ["bin", "matmul", a, ["tup"] + ivs]
             else:
                 for i in ivs:
                     a = ["bin", "matmul", a, i]
+            if rng.random() < 0.1 or late:
+                # a unary operator on the finished counterfactual variable (the CounterfactualVariable overrides of
+                # __pos__ / __neg__ / invert keep the subscripts): -(Y @ X), ~(-Y @ X)
+                a = self.unary(a)
+            for i in late:
+                a = ["bin", "matmul", a, i]                # (-(Y @ X)) @ Z
         return a
+
+    @staticmethod
+    def _band(xs):
+        x = xs[0]
+        for y in xs[1:]:
+            x = ["bin", "band", x, y]
+        return x
+
+    def joint_of(self, cv):
+        """variables written as ONE distribution-valued expression (len(cv) >= 2): `&` chains, `&` with a tuple on the right"""
+        r = self.rng.random()
+        if len(cv) == 2 or r < 0.4:
+            return self._band(cv)                                                 # A & B & C
+        if r < 0.75 or len(cv) == 3:
+            return ["bin", "band", cv[0], ["tup"] + cv[1:]]                       # A & (B, C)
+        j = self.rng.randrange(2, len(cv) - 1)
+        return ["bin", "band", self._band(cv[:j]), ["tup"] + cv[j:]]              # A & B & (C, D)
+
+    def given_of(self, x, pv):
+        """`x | parents` with the parents written in every legal way (x a variable or a distribution without parents)"""
+        rng = self.rng
+        if len(pv) == 1:
+            return ["bin", "bor", x, pv[0]]
+        r = rng.random()
+        if r < 0.25:
+            return ["bin", "bor", x, ["tup"] + pv]
+        if r < 0.55:
+            return ["bin", "bor", x, self.joint_of(pv)]                           # A | B & C   (the documented idiom)
+        if r < 0.8:
+            y = x
+            for p in pv:
+                y = ["bin", "bor", y, p]                                          # A | B | C  ==  (A | B) | C
+            return y
+        j = rng.randrange(1, len(pv))
+        left = self.given_of(x, pv[:j])
+        rest = pv[j:]
+        return ["bin", "bor", left, rest[0] if len(rest) == 1 else (self.joint_of(rest) if rng.random() < 0.6 else ["tup"] + rest)]
+
+    def dist_args(self, cv, pv):
+        """the argument list of a P / PP[..] call for children cv and parents pv; second component: the list is one
+        distribution-valued argument (so that `@` can be applied to it)"""
+        rng = self.rng
+        style = rng.random()
+        new = rng.random() < 0.3          # the operator forms that only `|`, `&` between DISTRIBUTIONS reach
+        if not pv:
+            if len(cv) == 1:
+                return cv, False
+            if new:
+                return [self.joint_of(cv)], True
+            if style < 0.75:
+                return cv, False
+            if style < 0.9:
+                return [["tup"] + cv], False
+            return [self._band(cv)], True
+        if new:
+            r = rng.random()
+            if r < 0.45 or len(cv) == 1:
+                x = cv[0] if len(cv) == 1 else self.joint_of(cv)
+                if len(cv) == 1 and len(pv) >= 3 and rng.random() < 0.3:
+                    return [self.given_of(x, pv[:-1]), pv[-1]], False            # P(A | B & C, D)
+                return [self.given_of(x, pv)], True
+            if r < 0.75:
+                return cv[:-1] + [self.given_of(cv[-1], pv)], False              # P(A, B | C | D)
+            # `&` applied to a conditional distribution: P((A | B) & C) == P(A, C | B)
+            x = self.given_of(cv[0], pv)
+            rest = cv[1:]
+            return [["bin", "band", x, rest[0] if len(rest) == 1 else ["tup"] + rest]], True
+        if style < 0.8:
+            return cv[:-1] + [["bin", "bor", cv[-1], pv[0]]] + pv[1:], len(cv) == 1 and len(pv) == 1
+        return [["bin", "bor", self._band(cv), pv[0] if len(pv) == 1 else ["tup"] + pv]], True
 
     def prob(self):
         rng = self.rng
         names = list(self.pool)
         rng.shuffle(names)
-        nc = rng.choice([1, 1, 1, 2, 2, 3])
-        np_ = rng.choice([0, 0, 0, 1, 1, 2])
+        nc = rng.choice([1, 1, 1, 2, 2, 3]) if rng.random() > 0.06 else rng.randint(4, 6)
+        np_ = rng.choice([0, 0, 0, 1, 1, 2]) if rng.random() > 0.06 else rng.randint(3, 4)
         nc = min(nc, len(names))
         np_ = min(np_, len(names) - nc)
         ch, pa = names[:nc], names[nc:nc + np_]
@@ -162,39 +307,54 @@ class Gen:
         p_cf = rng.choice([0.0, 0.0, 0.2, 0.6, 1.0])
         cv = [self.var(n, others, stars, p_cf) for n in ch]
         pv = [self.var(n, others, stars, p_cf) for n in pa]
-        style = rng.random()
-        if not pv:
-            if style < 0.75 or len(cv) == 1:
-                args = cv
-            elif style < 0.9:
-                args = [["tup"] + cv]
-            else:
-                x = cv[0]
-                for y in cv[1:]:
-                    x = ["bin", "band", x, y]
-                args = [x]
-        elif style < 0.8:
-            args = cv[:-1] + [["bin", "bor", cv[-1], pv[0]]] + pv[1:]
-        else:
-            x = cv[0]
-            for y in cv[1:]:
-                x = ["bin", "band", x, y]
-            args = [["bin", "bor", x, pv[0] if len(pv) == 1 else ["tup"] + pv]]
+        args, single = self.dist_args(cv, pv)
         head = ["k", "P"]
         if rng.random() < 0.22:
             head = ["sub", ["k", "PP"], self.popn()]
-        if others and rng.random() < 0.28:
-            k = min(len(others), rng.choice([1, 1, 2, 3]))
-            ivs = [self.iv(n, stars[n]) for n in rng.sample(others, k)]
-            head = ["sub", head, ivs[0] if k == 1 else ["tup"] + ivs]
-        return ["call", head] + args
+        if not others or rng.random() >= 0.28:
+            dpos = [i for i, x in enumerate(args) if x[0] == "bin" and x[1] in ("bor", "band")]
+            if dpos and others and rng.random() < 0.04:
+                # `@` on a distribution that is one argument among others: P(W, (Y | Z) @ X, V): mixed worlds
+                args = list(args)
+                args[dpos[0]] = ["bin", "matmul", args[dpos[0]], self.iv(others[0], stars[others[0]])]
+            return ["call", head] + args
+        kmax = rng.choice([1, 1, 2, 3]) if rng.random() > 0.08 else rng.choice([4, 5])
+        k = min(len(others), kmax)
+        ivs = [self.iv(n, stars[n]) for n in rng.sample(others, k)]
+        how = rng.random()
+        if how < 0.6:                                       # the builder's own subscript syntax P[..](..)
+            return ["call", ["sub", head, self.ivs_arg(ivs)]] + args
+        sub_ivs = []
+        if k >= 2 and rng.random() < 0.3:
+            sub_ivs, ivs = ivs[:1], ivs[1:]                 # P[A](Y | Z) @ X: both syntaxes on one term
+        if sub_ivs:
+            head = ["sub", head, sub_ivs[0]]
+        if how >= 0.8 and not single and (len(cv) >= 2 or pv):
+            x = cv[0] if len(cv) == 1 else self.joint_of(cv)
+            args, single = [self.given_of(x, pv) if pv else x], True
+        if how < 0.8 or not single:
+            # `@` applied to the finished Probability / PopulationProbability: P(Y | Z) @ (X, +W), PP[π1](Y) @ X
+            x = ["call", head] + args
+            if len(ivs) >= 2 and rng.random() < 0.3:
+                for i in ivs:
+                    x = ["bin", "matmul", x, i]
+                return x
+            return ["bin", "matmul", x, self.ivs_arg(ivs)]
+        # `@` applied to the Distribution inside the call: P((Y | Z) @ X), P((Y & Z) @ X)
+        d = args[0]
+        if len(ivs) >= 2 and rng.random() < 0.3:
+            for i in ivs:
+                d = ["bin", "matmul", d, i]
+        else:
+            d = ["bin", "matmul", d, self.ivs_arg(ivs)]
+        return ["call", head, d]
 
     def q(self):
         rng = self.rng
         names = list(self.pool)
         rng.shuffle(names)
-        nc = rng.choice([1, 1, 2])
-        nd = rng.choice([1, 2, 2, 3])
+        nc = rng.choice([1, 1, 2]) if rng.random() > 0.06 else rng.randint(3, 4)
+        nd = rng.choice([1, 2, 2, 3]) if rng.random() > 0.06 else rng.randint(4, 5)
         nc = min(nc, len(names) - 1)
         nd = min(nd, len(names) - nc)
         fancy = rng.random() < 0.15
@@ -219,7 +379,7 @@ class Gen:
         return self.prob()
 
     def ranges(self):
-        k = self.rng.choice([1, 1, 2, 3])
+        k = self.rng.choice([1, 1, 2, 3]) if self.rng.random() > 0.06 else self.rng.choice([4, 5])
         ns = self.rng.sample(self.pool, min(k, len(self.pool)))
         return _n(ns[0]) if len(ns) == 1 else ["tup"] + [_n(n) for n in ns]
 
@@ -326,12 +486,21 @@ class Gen:
             plain = self.mark(_n(rest[nc + np_ - 1] if pa else rest[nc - 1]))
             tgt[-1] = plain if (k == 1 or rng.random() < 0.5) else ["bin", "matmul", plain, self.iv(ivn[0], stars[ivn[0]])]
         head = ["k", "P"] if not pp else ["sub", ["k", "PP"], self.popn()]
-        if level2 and rng.random() < 0.5:
-            # the same object written with the builder's own subscript syntax
+        how = rng.random()
+        if level2 and how < 0.65:
+            # the same object written with the builder's own subscript syntax, or with `@` applied to the finished
+            # Probability, or to the Distribution inside the call
             ch = [self.mark(_n(n)) for n in rest[:nc]]
             pa = [self.mark(_n(n)) for n in rest[nc:nc + np_]]
             ivs = [self.iv(i, stars[i]) for i in ivn]
-            head = ["sub", head, ivs[0] if k == 1 else ["tup"] + ivs]
+            if how < 0.4:
+                head = ["sub", head, self.ivs_arg(ivs)]
+            elif how < 0.55 or len(ch) + len(pa) < 2:
+                args = ch if not pa else ch[:-1] + [["bin", "bor", ch[-1], pa[0]]] + pa[1:]
+                return ["bin", "matmul", ["call", head] + args, self.ivs_arg(ivs)]
+            else:
+                x = ch[0] if len(ch) == 1 else self.joint_of(ch)
+                return ["call", head, ["bin", "matmul", self.given_of(x, pa) if pa else x, self.ivs_arg(ivs)]]
         args = ch if not pa else ch[:-1] + [["bin", "bor", ch[-1], pa[0]]] + pa[1:]
         return ["call", head] + args
 
@@ -455,7 +624,28 @@ class Gen:
         rng = self.rng
         a, b, c, d = (_n(n) for n in (self.pool + self.pool)[:4])
         pa = ["call", ["k", "P"], a]
-        r = rng.randrange(12)
+        r = rng.randrange(22)
+        sm = ["call", ["sub", ["k", "Sum"], b], ["call", ["k", "P"], a, b]]
+        if r == 12:
+            return ["bin", "matmul", sm, c]                                                    # Sum @ X: no __matmul__
+        if r == 13:
+            return ["bin", "matmul", ["bin", "mul", pa, ["call", ["k", "P"], b]], c]           # Product @ X
+        if r == 14:
+            return ["bin", "matmul", ["call", ["sub", ["k", "Q"], a], b], c]                   # QFactor @ X
+        if r == 15:
+            return ["call", ["k", "P"], ["bin", "band", a, ["bin", "band", b, c]]]             # A & (B & C): a Distribution is not a VariableHint
+        if r == 16:
+            return ["call", ["k", "P"], ["bin", "band", a, ["bin", "bor", b, c]]]              # A & (B | C)
+        if r == 17:
+            return ["call", ["k", "P"], ["un", rng.choice(["pos", "neg", "inv"]), ["bin", "bor", a, b]]]   # -(A | B)
+        if r == 18:
+            return ["un", "neg", pa]                                                           # -P(A)
+        if r == 19:
+            return ["bin", "matmul", pa, ["call", ["k", "P"], b]]                              # P(A) @ P(B)
+        if r == 20:
+            return ["call", ["k", "P"], ["bin", "bor", ["bin", "bor", a, b], ["bin", "bor", c, d]]]   # (A | B) | (C | D)
+        if r == 21:
+            return ["call", ["k", "P"], ["bin", "matmul", ["bin", "bor", a, b], ["bin", "band", c, d]]]   # (A | B) @ (C & D)
         if r == 0:
             return ["call", ["k", "P"], ["bin", "bor", a, b], ["bin", "bor", c, d]]          # two conditionals
         if r == 1:
@@ -513,8 +703,85 @@ def cases(rng: random.Random, tier: str):
     return [F.assign(c, _slots(c)) if c.get("kind") == "expr" else c for c in _cases(rng, tier)]
 
 
+SWEEP_TEMPLATES = ("child", "given", "cf", "sum", "q", "level2", "pp", "marked")
+
+
+def sweep_case(a: str, b: str, template: str):
+    """one tiny construction in which the table name `a` has a fixed role (and `b`, its neighbour in the table, which
+    is another spelling of the same stem for most names, the complementary one)"""
+    A, B = _n(a), _n(b)
+    P = lambda *xs: ["call", ["k", "P"], *xs]  # noqa: E731
+    if template == "child":
+        x = P(A)
+    elif template == "given":
+        x = P(["bin", "bor", A, B])
+    elif template == "cf":
+        x = P(["bin", "matmul", B, A], A)
+    elif template == "sum":
+        x = ["call", ["sub", ["k", "Sum"], A], P(A, B)]
+    elif template == "q":
+        x = ["call", ["sub", ["k", "Q"], A], B]
+    elif template == "level2":
+        x = ["call", ["sub", ["k", "P"], ["un", "pos", A]], B]
+    elif template == "pp":
+        x = ["call", ["sub", ["k", "PP"], A], B]
+    elif template == "marked":
+        x = P(["un", "pos", A], ["un", "neg", B])
+    else:
+        raise ValueError(template)
+    return {"kind": "expr", "build": x, "shape": "name-sweep"}
+
+
+def name_sweep(tier: str):
+    """EVERY name of the parser's table, deterministically: `P(<name>)`, and the name in one (quick) / every (thorough)
+    other role, together with its neighbour in the table"""
+    out = []
+    for i, a in enumerate(TABLE):
+        b = TABLE[(i + 1) % len(TABLE)]
+        out.append(sweep_case(a, b, "child"))
+        rest = SWEEP_TEMPLATES[1:]
+        for t in (rest if tier not in ("quick", "escalated") else [rest[i % len(rest)]]):
+            out.append(sweep_case(a, b, t))
+    return out
+
+
+def _names_in(a, acc):
+    if isinstance(a, list):
+        if a and a[0] == "n":
+            acc.append(PC.vname(int(a[1])))
+        else:
+            for x in a[1:]:
+                _names_in(x, acc)
+    return acc
+
+
+def census(cases_):
+    """how much of the name table one run draws: distinct names and the rarest name's number of constructions, in the
+    random streams alone and with the deterministic sweep (reported as tags of one pseudo case)"""
+    import collections
+
+    rnd, full = collections.Counter(), collections.Counter()
+    for c in cases_:
+        if c.get("kind") != "expr" or "corpus" in c:
+            continue
+        ns = set(_names_in(c["build"], []))
+        full.update(ns)
+        if c.get("shape") != "name-sweep":
+            rnd.update(ns)
+    lo = lambda cnt: min((cnt.get(n, 0) for n in TABLE), default=0)  # noqa: E731
+    return {"kind": "census", "table": len(TABLE), "distinct_random": sum(1 for n in TABLE if rnd.get(n)),
+            "distinct_all": sum(1 for n in TABLE if full.get(n)), "min_uses_random": lo(rnd), "min_uses_all": lo(full),
+            "lt3_random": sum(1 for n in TABLE if rnd.get(n, 0) < 3)}
+
+
 def _cases(rng: random.Random, tier: str):
-    out = load_corpus() + [dict(c) for c in SPECIAL]
+    out = _cases0(rng, tier)
+    out.append(census(out))
+    return out
+
+
+def _cases0(rng: random.Random, tier: str):
+    out = load_corpus() + [dict(c) for c in SPECIAL] + name_sweep(tier)
     n = {"quick": 9000, "escalated": 30000}.get(tier, 90000)
     for _ in range(n):
         g = Gen(random.Random(rng.randrange(1 << 60)))
@@ -692,6 +959,114 @@ def _run_special(case):
     return {"out": ["special"], "fail": fail, "nontrivial": False, "tags": {"kind": "special"}}
 
 
+def _cap(n, hi):
+    return str(n) if n < hi else f"{hi}+"
+
+
+def tree_tags(a):
+    """which operator shapes / sizes / names a CONSTRUCTION tree contains, computed on the tree itself (not by the
+    generator), so that the evidence shows what is really produced"""
+    t = {"op_matmul_on_prob": False, "op_matmul_on_pp": False, "op_matmul_on_dist": False, "op_matmul_dist_among_args": False,
+         "op_or_and_joint": False, "op_chained_or": False, "op_and_tuple": False, "op_and_on_conditional": False,
+         "op_unary_on_cf": False, "op_double_unary": False, "op_matmul_after_unary_cf": False, "op_subscript_and_matmul": False}
+    size = {"ivs": 0, "subscripts": 0, "ranges": 0, "args": 0}
+    names, pops = [], []
+
+    def is_dist(x):
+        return x[0] == "bin" and (x[1] in ("bor", "band") or (x[1] == "matmul" and is_dist(x[2])))
+
+    def is_cf(x):
+        return (x[0] == "bin" and x[1] == "matmul" and not is_dist(x[2]) and x[2][0] != "call") or (x[0] == "un" and is_cf(x[2]))
+
+    def has_bor(x):
+        return x[0] == "bin" and (x[1] == "bor" or (x[1] in ("band", "matmul") and has_bor(x[2])))
+
+    def tlen(x):
+        return len(x) - 1 if x[0] == "tup" else 1
+
+    def walk(x):
+        tag = x[0]
+        if tag == "n":
+            names.append(PC.vname(int(x[1])))
+            return
+        if tag == "k":
+            return
+        if tag == "un":
+            if x[2][0] == "un":
+                t["op_double_unary"] = True
+            if is_cf(x[2]):
+                t["op_unary_on_cf"] = True
+            walk(x[2])
+            return
+        if tag == "bin":
+            op, l, r = x[1], x[2], x[3]
+            if op == "matmul":
+                size["ivs"] = max(size["ivs"], tlen(r))
+                if l[0] == "call":
+                    kind = PC._builder_kind(l[1])
+                    if kind == "P":
+                        t["op_matmul_on_prob"] = True
+                    elif kind == "PP":
+                        t["op_matmul_on_pp"] = True
+                    f = l[1]
+                    if kind in ("P", "PP") and f[0] == "sub" and f[1] != ["k", "PP"]:
+                        t["op_subscript_and_matmul"] = True
+                elif is_dist(l):
+                    t["op_matmul_on_dist"] = True
+                elif l[0] == "un" and is_cf(l[2]):
+                    t["op_matmul_after_unary_cf"] = True
+            elif op == "bor":
+                if r[0] == "bin" and r[1] == "band":
+                    t["op_or_and_joint"] = True
+                if has_bor(l):
+                    t["op_chained_or"] = True
+            elif op == "band":
+                if r[0] == "tup":
+                    t["op_and_tuple"] = True
+                if has_bor(l):
+                    t["op_and_on_conditional"] = True
+            walk(l)
+            walk(r)
+            return
+        if tag == "sub":
+            f, idx = x[1], x[2]
+            if f == ["k", "PP"]:
+                _names_in(idx, pops)
+                walk(f)
+                return
+            if f == ["k", "Sum"]:
+                size["ranges"] = max(size["ranges"], tlen(idx))
+            elif PC._builder_kind(f) in ("P", "PP"):
+                size["subscripts"] = max(size["subscripts"], tlen(idx))
+            walk(f)
+            walk(idx)
+            return
+        if tag == "call":
+            args = x[2:]
+            if PC._builder_kind(x[1]) in ("P", "PP"):
+                size["args"] = max(size["args"], len(args))
+                if len(args) >= 2 and any(a[0] == "bin" and a[1] == "matmul" and is_dist(a[2]) for a in args):
+                    t["op_matmul_dist_among_args"] = True
+            walk(x[1])
+            for a in args:
+                walk(a)
+            return
+        for y in x[1:]:
+            walk(y)
+
+    walk(a)
+    ns = set(names)
+    stems = [stem_of(n) for n in ns]
+    t["names_outside_old_lists"] = _cap(len(ns - _OLD_LISTS), 4)
+    t["names_same_stem_spellings"] = len(stems) != len(set(stems))
+    t["names_pi_form_as_variable"] = any(stem_of(n) in ("Pi", "π") for n in ns)
+    t["names_population_outside_old_lists"] = any(n not in _OLD_LISTS for n in pops)
+    t["size_cf_interventions"] = _cap(size["ivs"], 5)
+    t["size_P_subscripts"] = _cap(size["subscripts"], 6)
+    t["size_sum_ranges"] = _cap(size["ranges"], 6)
+    return t
+
+
 def _slots(case):
     return {"dsl_form": PC.ALT_STYLES} if case.get("kind") == "expr" else {}
 
@@ -763,7 +1138,14 @@ def run_python(case):
         return _run_tokens(case)
     if case["kind"] == "special":
         return _run_special(case)
+    if case["kind"] == "census":
+        return {"out": ["census"], "fail": None, "nontrivial": False, "tags": {
+            "kind": "census", "n_distinct_names (random streams)": f"{case['distinct_random']} of {case['table']}",
+            "n_distinct_names (with the sweep)": f"{case['distinct_all']} of {case['table']}",
+            "rarest name: constructions (random streams)": case["min_uses_random"],
+            "names in < 3 constructions (random streams)": case["lt3_random"]}}
     tags = {"kind": "expr"}
+    tags.update(tree_tags(case["build"]))
     try:
         e = PC.build(case["build"])
     except Exception as x:  # the construction is not a built expression: nothing to print
@@ -831,6 +1213,9 @@ def run_python(case):
         "n_tokens": min(len(out["tokens"]) // 10 * 10, 100),
         "shape": case.get("shape", "random"),
         "roundtrip": "error" if out["reparsed"] == ["err"] else ("equal" if p == e else "same meaning, other object"),
+        "size_children": _cap(max([len(x.children) for x in nodes if isinstance(x, Probability)] or [0]), 7),
+        "size_parents": _cap(max([len(x.parents) for x in nodes if isinstance(x, Probability)] or [0]), 5),
+        "size_Q": _cap(max([len(x.domain) + len(x.codomain) for x in nodes if isinstance(x, QFactor)] or [0]), 9),
     })
     sites = printer_sites(e)
     for st in ALL_SITES:
@@ -851,7 +1236,7 @@ def order_mode():
 
 
 def request(case):
-    if case["kind"] == "special":
+    if case["kind"] in ("special", "census"):
         return None
     if case["kind"] == "tokens":
         toks = _tokens_case_text(case)
